@@ -1328,7 +1328,8 @@ class Step:
                 if bid != o.bufid:
                     self.viol("C08", "reference_leaves_its_buffer", [self.kind], f"object {o.k} in buffer {o.bufid} refers to {loc}")
                     return
-                if not any(o2 <= off < o2 + max(s2, 1) for o2, s2 in o.buf._sim_allocs):
+                # (a zero-size part may legitimately sit exactly at the end of its parent's allocation)
+                if not any(o2 <= off <= o2 + s2 for o2, s2 in o.buf._sim_allocs):
                     self.viol("C08" if self.kind not in ("copy",) else "C09", "reference_target_not_in_live_allocation", [self.kind], f"object {o.k}: target at {off}, live {sorted(o.buf._sim_allocs)[:8]}")
                     return
                 rec(s[-1])
